@@ -35,7 +35,14 @@ def make_base(ctx, lw, rng, n):
     q = lw.qubit
     log: list = []
     direct = n == 1 and rng.random() < 0.25 or n == 2 and rng.random() < 0.15
-    if direct:
+    crossed = (not direct) and rng.random() < 0.1
+    if crossed:
+        # 2-3 heralds declared on numbered modes before / after the rails, routed onto each other's modes
+        h = int(rng.integers(2, 4))
+        off = int(rng.integers(0, h + 1))
+        base = lw.Circuit(2 * n + h)
+        hmodes = list(range(off)) + list(range(off + 2 * n, 2 * n + h))
+    elif direct:
         pos = int(rng.choice([0, 2 * n]))
         base = lw.Circuit(2 * n + 1)
         off = 1 if pos == 0 else 0
@@ -61,6 +68,16 @@ def make_base(ctx, lw, rng, n):
         base.herald(0, pos)
         log.append(["herald", 0, pos])
         ctx.bucket("direct_herald")
+    if crossed:
+        perm = [int(x) for x in rng.permutation(hmodes)]
+        if perm == hmodes:
+            perm = perm[1:] + perm[:1]
+        base.mode_swaps(dict(zip(hmodes, perm)))
+        photons = [int(x) for x in rng.permutation([1, 0, 0][:len(hmodes)])]
+        for k in rng.permutation(len(hmodes)):
+            base.herald(photons[int(k)], hmodes[int(k)], perm[int(k)])
+            log.append(["herald", photons[int(k)], hmodes[int(k)], perm[int(k)]])
+        ctx.bucket("direct_heralds_routed_onto_each_other")
     return base, log, ent, off
 
 
